@@ -6,6 +6,7 @@
    from base_metric.py on every run (gen/Src_query.v). *)
 From Coq Require Import List Arith Bool String.
 From ML Require Import Validate C06Proof.
+From ML Require Import PinsC06.
 From MLgen Require Import Src_query.
 Import ListNotations.
 
@@ -59,3 +60,7 @@ Example C06_nonvacuous :
   check_input {| ndim := 3; shape := [4; 3; 3]; kind := KFloat; nonfinite := false |}
               {| yf := YPm1; ylen := 4 |} None Tuples (Some 2) default_opts = Raise ValueError.
 Proof. split; reflexivity. Qed.
+
+(* text-level tie: the functions this property's hand-written model and harness were written from are unchanged
+   (digests regenerated from /repo on every run; Proofs/PinsC06.v) *)
+Definition C06_source_pins := pins_C06_ok.
